@@ -353,7 +353,9 @@ def main(argv):
     cases = []
     for n, c in enumerate(emitted):
         single = len(c["ss"]) == 1
-        modes = MODES if (single or tier == "thorough") else [MODES[n % 4]]
+        if tier == "thorough" and not single and n % 2:
+            continue  # thorough: every second pair (TLC has checked all of them)
+        modes = MODES if single else ([MODES[n % 4], MODES[(n + 1) % 4]] if tier == "thorough" else [MODES[n % 4]])   # pairs: rotating modes
         cases.append({"shape": shape, "ss": c["ss"], "variant": n, "modes": modes, "ref": c["ref"], "devs": c["devs"]})
     results = pipeline.run_many(run_case, cases, chunksize=8)
     n_out = 0
